@@ -21,7 +21,18 @@ def exitCtl : Outcome → Ctl
   | .done => .exit .done
   | o => .resume o
 
-def cleanupsSync (cs : List (Nat × Nat)) : Bool := cs.all (fun c => cleanupSync specs c.2)
+/-- a cleanup that completes inside its start(): synchronous, or awaiting a leaf that completes inline with a value
+    (the library-internal reschedule-back cleanup is outside the inline fragment) -/
+def ckSync : CK → Bool
+  | .sync => true
+  | .leaf l => (specs l).kind.isInlineValue
+  | .back _ => false
+
+def cleanupsSync (cs : List (Nat × CK)) : Bool := cs.all (fun c => ckSync specs c.2)
+
+theorem ckSync_ckOf (l : Nat) : ckSync specs (ckOf l) = cleanupSync specs l := by
+  unfold ckOf cleanupSync
+  by_cases h : l = 0 <;> simp [h, ckSync]
 
 /-- the top frame has exited: popped, its awaiter is about to observe `o`, `ran` cleanups have run,
     nothing else changed -/
@@ -40,7 +51,7 @@ structure Exited (s' : St) (rest : List Frame) (o : Outcome) (ran : List Nat)
 @[simp] theorem rootTrace_append (a b : List Out) : rootTrace (a ++ b) = rootTrace a ++ rootTrace b := by
   simp [rootTrace]
 
-theorem exit_sim (o : Outcome) : ∀ (cs : List (Nat × Nat)) (s : St) (fr : Frame) (rest : List Frame),
+theorem exit_sim (o : Outcome) : ∀ (cs : List (Nat × CK)) (s : St) (fr : Frame) (rest : List Frame),
     s.ctl = .exit o → s.frames = fr :: rest → fr.cleanups = cs → cleanupsSync specs cs = true →
     ∃ m, Exited (iter specs m s) rest o (cleanupTrace s.outs ++ cs.map Prod.fst)
       s.srcStopped s.inlineSched s.stopOp (rootTrace s.outs) := by
@@ -53,11 +64,11 @@ theorem exit_sim (o : Outcome) : ∀ (cs : List (Nat × Nat)) (s : St) (fr : Fra
       constructor <;> simp [iter, step, hc, hf, exitStep, hcs, emit, exitCtl, cleanupTrace, rootTrace]
   | cons c cs ih =>
     intro s fr rest hc hf hcs hsync
-    obtain ⟨a, l⟩ := c
+    obtain ⟨a, ck⟩ := c
     simp only [cleanupsSync, List.all_cons, Bool.and_eq_true] at hsync
     obtain ⟨hl, hrest⟩ := hsync
-    by_cases hl0 : l = 0
-    · subst hl0
+    cases ck with
+    | sync =>
       have hstep : step specs s = emit { s with frames := { fr with cleanups := cs, ran := fr.ran ++ [a] } :: rest } (.cleanup fr.id a) := by
         simp [step, hc, hf, exitStep, hcs]
       obtain ⟨m, hE⟩ := ih (step specs s) { fr with cleanups := cs, ran := fr.ran ++ [a] } rest
@@ -65,7 +76,9 @@ theorem exit_sim (o : Outcome) : ∀ (cs : List (Nat × Nat)) (s : St) (fr : Fra
       refine ⟨m + 1, ?_⟩
       rw [hstep] at hE
       simpa [iter, hstep, emit, cleanupTrace, rootTrace] using hE
-    · simp only [cleanupSync, Bool.or_eq_true, beq_iff_eq, hl0, false_or] at hl
+    | back n => simp [ckSync] at hl
+    | leaf l =>
+      simp only [ckSync] at hl
       cases hk : (specs l).kind with
       | pending r => simp [hk, LeafKind.isInlineValue] at hl
       | inline ov =>
@@ -74,13 +87,12 @@ theorem exit_sim (o : Outcome) : ∀ (cs : List (Nat × Nat)) (s : St) (fr : Fra
         | done => simp [hk, LeafKind.isInlineValue] at hl
         | value v =>
           have hstep : step specs s = emit (emit { s with frames := { fr with cleanups := cs, ran := fr.ran ++ [a] } :: rest } (.cleanup fr.id a)) (.leafStart l false) := by
-            simp [step, hc, hf, exitStep, hcs, hl0, hk]
+            simp [step, hc, hf, exitStep, hcs, hk]
           obtain ⟨m, hE⟩ := ih (step specs s) { fr with cleanups := cs, ran := fr.ran ++ [a] } rest
             (by rw [hstep]; simp [emit, hc]) (by rw [hstep]; simp [emit]) rfl hrest
           refine ⟨m + 1, ?_⟩
           rw [hstep] at hE
           simpa [iter, hstep, emit, cleanupTrace, rootTrace] using hE
-
 
 theorem evalFrame_cons (st : Bool) (x : Stmt) (k : List Stmt) (acc : Nat) (reg ran : List Nat) :
     evalFrame specs st (x :: k) acc reg ran =
@@ -217,12 +229,12 @@ theorem exec_sim : ∀ (n : Nat) (k : List Stmt), progSize k ≤ n → ExecSim s
           rw [hstep] at hE
           simpa [iter, hstep, evalFrame_cons, evalStmt, hst] using hE
       | atExit a l =>
-        have hstep : step specs s = emit { s with frames := { fr with kont := k, cleanups := (a, l) :: fr.cleanups, regd := a :: fr.regd } :: rest } (.reg fr.id a) := by
+        have hstep : step specs s = emit { s with frames := { fr with kont := k, cleanups := (a, ckOf l) :: fr.cleanups, regd := a :: fr.regd } :: rest } (.reg fr.id a) := by
           simp [step, hc, hf, execStep, hkk]
-        have hsync' : cleanupsSync specs ((a, l) :: fr.cleanups) = true := by
+        have hsync' : cleanupsSync specs ((a, ckOf l) :: fr.cleanups) = true := by
           simp only [cleanupsSync, List.all_cons, Bool.and_eq_true]
-          exact ⟨by simpa [Stmt.inline] using hinx, hsync⟩
-        obtain ⟨m, hE⟩ := IHk (step specs s) { fr with kont := k, cleanups := (a, l) :: fr.cleanups, regd := a :: fr.regd } rest
+          exact ⟨by rw [ckSync_ckOf]; simpa [Stmt.inline] using hinx, hsync⟩
+        obtain ⟨m, hE⟩ := IHk (step specs s) { fr with kont := k, cleanups := (a, ckOf l) :: fr.cleanups, regd := a :: fr.regd } rest
           (by rw [hstep]; exact hc) (by rw [hstep]; rfl) rfl (by rw [hstep]; exact hink) hsync'
         refine ⟨m + 1, ?_⟩
         rw [hstep] at hE
@@ -233,25 +245,32 @@ theorem exec_sim : ∀ (n : Nat) (k : List Stmt), progSize k ≤ n → ExecSim s
         cases hki : (specs i).kind with
         | pending r => simp [hki, LeafKind.isInline] at hkind
         | inline o =>
-          have hstep : step specs s = { emit { s with frames := { fr with kont := k, catching := t } :: rest } (.leafStart i s.srcStopped) with ctl := .resume o } := by
-            cases ha : (specs i).affine <;> simp_all [step, execStep, leafDone, emit]
+          obtain ⟨toks, hstep, ht1, ht2⟩ : ∃ toks, step specs s =
+              { s with frames := { fr with kont := k, catching := t } :: rest, ctl := .resume o, outs := s.outs ++ toks } ∧
+              cleanupTrace toks = [] ∧ rootTrace toks = [] := by
+            cases ha : (specs i).affine
+            · refine ⟨[.leafStart i s.srcStopped, .sched fr.sched], ?_, rfl, rfl⟩
+              simp_all [step, execStep, leafDone, schedHop, emit]
+            · refine ⟨[.leafStart i s.srcStopped], ?_, rfl, rfl⟩
+              simp_all [step, execStep, leafDone, emit]
           obtain ⟨j, hj⟩ := resume_norm specs (step specs s) { fr with kont := k, catching := t } rest o
-            (by rw [hstep]) (by rw [hstep]; rfl)
+            (by rw [hstep]) (by rw [hstep])
           obtain ⟨m, hE⟩ := absorb_sim specs k IHk _ { fr with kont := k, catching := t } rest o
             (show ({ step specs s with ctl := exitCtl o } : St).ctl = exitCtl o from rfl)
-            (by rw [hstep]; rfl) rfl (by rw [hstep]; exact hink) hsync
+            (by rw [hstep]) rfl (by rw [hstep]; exact hink) hsync
           refine ⟨(j + m) + 1, ?_⟩
           have hiter : iter specs ((j + m) + 1) s = iter specs m { step specs s with ctl := exitCtl o } := by
             show iter specs (j + m) (step specs s) = _
             rw [iter_add, hj]
           rw [hiter]
           rw [hstep] at hE ⊢
-          simpa [evalFrame_cons, evalStmt, leafOutcome, hki, emit, cleanupTrace, rootTrace] using hE
+          simpa [evalFrame_cons, evalStmt, leafOutcome, hki, cleanupTrace_append, rootTrace_append, ht1, ht2] using hE
+      | resched n' => simp [Stmt.inline] at hinx
       | awaitTask p t =>
         have hp : progSize p ≤ n := by simp [progSize, Stmt.size] at hk; omega
         have hinp : progInline specs s.inlineSched p = true := by simpa [Stmt.inline] using hinx
         let child : Frame :=
-          { id := s.nextId, kont := p, acc := 0, cleanups := [], catching := false, live := true, regd := [], ran := [] }
+          { id := s.nextId, kont := p, acc := 0, cleanups := [], catching := false, live := true, sched := fr.sched, resched := false, regd := [], ran := [] }
         let parent : Frame := { fr with kont := k, catching := t }
         have hstep : step specs s = emit { s with frames := child :: parent :: rest, nextId := s.nextId + 1 } (.frameStart s.nextId) := by
           simp [step, hc, hf, execStep, hkk, child, parent]
@@ -286,13 +305,13 @@ theorem root_step (x : St) (o : Outcome) (hc : x.ctl = exitCtl o) (hf : x.frames
 /-- start() of a connected task whose awaits all complete inline: the receiver is completed inside
     start() with the spec's outcome, after exactly the spec's cleanups.  `b`: stop was requested
     before start (then the scheduler must be inline, else the stop request is still queued). -/
-theorem start_inline (p : Prog) (inl b : Bool) (hb : b = false ∨ inl = true)
+theorem start_inline (p : Prog) (inl st b : Bool) (hb : b = false ∨ inl = true)
     (hI : progInline specs inl p = true) :
-    let s := onStart specs { St.init p inl with rootStopped := b }
+    let s := onStart specs { St.init p inl st with rootStopped := b }
     s.ctl = .finished ∧ rootTrace s.outs = [(evalProg specs b p).1] ∧
       cleanupTrace s.outs = (evalProg specs b p).2 := by
   intro s
-  let s0 : St := emit { St.init p inl with rootStopped := b, srcStopped := b, ctl := .exec, frames := [{ rootFrame p with live := true }] } (.frameStart 0)
+  let s0 : St := emit { St.init p inl st with rootStopped := b, srcStopped := b, ctl := .exec, frames := [{ rootFrame p with live := true }], outs := if b then [.sched 0] else [] } (.frameStart 0)
   have hs : s = settle specs s0 := by
     rcases hb with hb | hb
     · subst hb; rfl
@@ -300,8 +319,8 @@ theorem start_inline (p : Prog) (inl b : Bool) (hb : b = false ∨ inl = true)
   obtain ⟨m, hE⟩ := exec_sim specs (progSize p) p (Nat.le_refl _) s0 { rootFrame p with live := true } []
     rfl rfl rfl hI rfl
   have f1 : s0.srcStopped = b := rfl
-  have f2 : cleanupTrace s0.outs = [] := rfl
-  have f3 : rootTrace s0.outs = [] := rfl
+  have f2 : cleanupTrace s0.outs = [] := by cases b <;> rfl
+  have f3 : rootTrace s0.outs = [] := by cases b <;> rfl
   have f4 : s0.stopOp = false := rfl
   have f5 : ({ rootFrame p with live := true } : Frame).acc = 0 := rfl
   have f6 : ({ rootFrame p with live := true } : Frame).cleanups.map Prod.fst = [] := rfl
